@@ -1,4 +1,352 @@
+//! C19 — a mounted directory serves exactly its files, byte-identical, and nothing else.
+//!
+//! One scenario = one directory tree + omit-extension setting + mount route + a list of requests.
+//! `run` materialises the tree under `<worktree>/work/dirmount-tmp/<unique>/root` (plus siblings *outside* the
+//! mounted directory), mounts it with the real public API (`"/route".Dir(path).omit_extensions([..])`) through
+//! the run-time assembly hook `__verif::apply_dir`, finalises the real router and feeds every request as raw
+//! bytes to the real `Request::read` → `Router::handle` → `Response::send`.  The outcome is projected onto the
+//! vocabulary of specs/DirMount.tla: status, media type of `Content-Type`, and the *set of files of the
+//! scenario whose bytes equal the body* (`eq`), so that "byte-identical" is decided on the real bytes and the
+//! TLA+ oracle only has to say which file is expected.
+//!
+//! Vocabulary (all text is a JSON array of 1-character strings, because TLC cannot index strings):
+//!   scn.mount : [seg, ..]                 mount route segments ([] = "/")
+//!   scn.omit  : [ext, ..]                 omit_extensions, without the leading dot
+//!   scn.files : [{path:[seg,..], cls}]    cls ∈ text | empty | bin | big | badtext
+//!   scn.late  : [{path:[seg,..], op}]     changes made on disk *after* the mount: op ∈ add | remove | rewrite
+//!   scn.reqs  : [{m, kind, path:[char,..]}]   request-target as characters (query included if any)
+//!   scn.salt  : int                       concretisation seed (contents, dot spelling of omit, relative/absolute dir)
+use crate::util::{self, Rng};
+use ohkami::__verif as v;
+use ohkami::Route;
 use serde_json::{json, Value};
-pub fn run(_scn: &Value) -> Value { json!({"kind": "unimplemented"}) }
-#[allow(dead_code)]
-pub fn gen(_rng: &mut crate::util::Rng, i: usize) -> Value { json!({"id": i}) }
+use std::path::{Path, PathBuf};
+use std::sync::atomic::{AtomicUsize, Ordering};
+
+static COUNTER: AtomicUsize = AtomicUsize::new(0);
+
+fn text(v: &Value) -> String { util::arr(v).iter().map(|c| util::s(c)).collect() }
+fn segs(v: &Value) -> Vec<String> { util::arr(v).iter().map(text).collect() }
+fn chars(s: &str) -> Value { Value::Array(s.chars().map(|c| json!(c.to_string())).collect()) }
+
+fn work_root() -> PathBuf {
+    // <worktree>/harness/target/vh/vh  →  <worktree>/work/dirmount-tmp
+    let exe = std::env::current_exe().unwrap();
+    let wt = exe.ancestors().nth(4).map(|p| p.to_path_buf()).unwrap_or_else(std::env::temp_dir);
+    wt.join("work").join("dirmount-tmp")
+}
+
+/// concretisation table: content class → bytes (path-derived, so that every file of a tree is distinguishable;
+/// `empty` files are of course all equal, which is why `eq` is a set)
+pub fn content(cls: &str, rel: &str, salt: u64) -> Vec<u8> {
+    match cls {
+        "empty" => vec![],
+        "text" => match salt % 3 {
+            0 => format!("<!-- {rel} #{salt} -->\n"),
+            1 => format!("file={rel}\r\nsalt={salt}\r\nπ ≈ 3.14159 — ünïcödé\n"),
+            _ => format!("{rel}\n").repeat(3 + (salt % 5) as usize),
+        }.into_bytes(),
+        // not valid UTF-8, contains NUL, CR LF CR LF and something that looks like a response head
+        "bin" | "badtext" => {
+            let mut b = vec![0x00, 0xff, 0xfe, 0x80, b'\r', b'\n', b'\r', b'\n', 0xc3, 0x28];
+            b.extend_from_slice(rel.as_bytes());
+            b.extend_from_slice(b"\r\nHTTP/1.1 200 OK\r\n\r\n");
+            b.extend((0..(salt % 7) as u8).map(|i| 0xf0 | i));
+            b.push(0x00);
+            b
+        }
+        "big" => {
+            let unit = format!("{rel}|{salt}|");
+            let mut b = Vec::with_capacity(70_000);
+            let mut i = 0u32;
+            while b.len() < 66_000 { b.extend_from_slice(unit.as_bytes()); b.extend_from_slice(i.to_string().as_bytes()); i += 1 }
+            b
+        }
+        _ => format!("?{rel}").into_bytes(),
+    }
+}
+
+fn fnv(b: &[u8]) -> String {
+    let mut h: u64 = 0xcbf29ce484222325;
+    for x in b { h ^= *x as u64; h = h.wrapping_mul(0x100000001b3) }
+    format!("{:016x}", h)
+}
+
+fn panic_msg(e: Box<dyn std::any::Any + Send>) -> String {
+    if let Some(s) = e.downcast_ref::<&str>() { s.to_string() } else if let Some(s) = e.downcast_ref::<String>() { s.clone() } else { "?".into() }
+}
+
+/// class of a mount-time refusal (the panic message of `Dir::new` / `RoutingItem for Dir` / the router)
+fn refusal_class(m: &str) -> &'static str {
+    if m.contains("Conflicting") { "conflict" }
+    else if m.contains("no extenstion") || m.contains("no extension") { "no-extension" }
+    else if m.contains("doesn't know extension") { "unknown-extension" }
+    else if m.contains("non UTF-8 text") { "non-utf8-text" }
+    else if m.contains("invalid route") || m.contains("path segment") || m.contains("routes must") || m.contains("empty route") { "invalid-route" }
+    else if m.contains("is not directory") || m.contains("No such file") { "no-directory" }
+    else { "other" }
+}
+
+struct Mounted { router: v::VRouter }
+
+fn mount(route: &'static str, dir: &'static str, omit: &[String], dotted: bool) -> Result<Mounted, String> {
+    let r = std::panic::catch_unwind(std::panic::AssertUnwindSafe(|| {
+        let d: v::Dir = route.Dir(dir);
+        let l = |i: usize| -> &'static str { util::leak(if dotted { format!(".{}", omit[i]) } else { omit[i].clone() }) };
+        let d = match omit.len() {
+            0 => d,
+            1 => d.omit_extensions([l(0)]),
+            2 => d.omit_extensions([l(0), l(1)]),
+            3 => d.omit_extensions([l(0), l(1), l(2)]),
+            _ => d.omit_extensions([l(0), l(1), l(2), l(3)]),
+        };
+        let mut o = ohkami::Ohkami::new(());
+        v::apply_dir(&mut o, d);
+        Mounted { router: v::finalize(o) }
+    }));
+    r.map_err(panic_msg)
+}
+
+fn one_request(router: &v::VRouter, m: &str, target: &str) -> (Vec<u8>, String) {
+    let raw = format!("{m} {target} HTTP/1.1\r\nHost: verif.test\r\nAccept: */*\r\n\r\n").into_bytes();
+    let router = router.clone();
+    let out = util::block_on(async move {
+        let mut rd = util::ScriptedReader::new(vec![raw]);
+        let mut rq = v::VRequest::new();
+        let mut buf: Vec<u8> = Vec::new();
+        let how;
+        match rq.read(&mut rd).await {
+            Ok(Some(())) => { let res = rq.handle(&router).await; v::send(res, &mut buf).await; how = "handled" }
+            Ok(None) => { how = "no-request" }
+            Err(res) => { v::send(res, &mut buf).await; how = "refused-by-parser" }
+        }
+        (buf, how.to_string())
+    });
+    out
+}
+
+pub fn run(scn: &Value) -> Value {
+    let salt = util::i(&scn["salt"]).max(0) as u64 ^ (util::i(&scn["id"]).max(0) as u64).wrapping_mul(0x9E37);
+    let mount_segs = segs(&scn["mount"]);
+    let omit = segs(&scn["omit"]);
+    let route: String = if mount_segs.is_empty() { "/".into() } else { mount_segs.iter().map(|s| format!("/{s}")).collect() };
+
+    // ---- materialise
+    let uniq = format!("{}-{}-{}", std::process::id(), util::i(&scn["id"]), COUNTER.fetch_add(1, Ordering::SeqCst));
+    let base = work_root().join(uniq);
+    let _ = std::fs::remove_dir_all(&base);
+    let root = base.join("root");
+    if let Err(e) = std::fs::create_dir_all(&root) { return json!({"kind": "tool-error", "msg": format!("mkdir {}: {e}", root.display())}) }
+    struct Guard(PathBuf);
+    impl Drop for Guard { fn drop(&mut self) { let _ = std::fs::remove_dir_all(&self.0); } }
+    let _guard = Guard(base.clone());
+
+    let mut contents: Vec<Vec<u8>> = vec![];
+    let mut rels: Vec<String> = vec![];
+    for f in util::arr(&scn["files"]) {
+        let p = segs(&f["path"]);
+        let rel = p.join("/");
+        let c = content(util::s(&f["cls"]), &rel, salt);
+        let full = root.join(&rel);
+        if let Some(d) = full.parent() { if let Err(e) = std::fs::create_dir_all(d) { return json!({"kind": "tool-error", "msg": format!("mkdir: {e}")}) } }
+        if let Err(e) = std::fs::write(&full, &c) { return json!({"kind": "tool-error", "msg": format!("write {}: {e}", full.display())}) }
+        contents.push(c); rels.push(rel);
+    }
+    for d in util::arr(&scn["emptydirs"]) { let _ = std::fs::create_dir_all(root.join(segs(d).join("/"))); }
+    // files outside the mounted directory: a sibling file, a sibling directory whose name extends the mounted
+    // directory's name, and a file in the parent's parent
+    let outside = b"OUTSIDE: this file is not under the mounted directory\n".to_vec();
+    let _ = std::fs::write(base.join("outside.txt"), &outside);
+    let _ = std::fs::create_dir_all(base.join("rootx"));
+    let _ = std::fs::write(base.join("rootx").join("secret.txt"), &outside);
+    let _ = std::fs::write(base.join("root.txt"), &outside);
+
+    // ---- mount with the real API (relative or absolute spelling of the directory by salt)
+    let abs = root.to_string_lossy().to_string();
+    let dir_spelling = if salt % 2 == 0 { abs.clone() } else {
+        // relative to the current directory when possible, with a redundant `./` and `..` detour
+        match std::env::current_dir().ok().and_then(|cwd| pathdiff(&root, &cwd)) { Some(r) => format!("./{}/../root", r.to_string_lossy()), None => abs.clone() }
+    };
+    let dotted = (salt / 2) % 2 == 1;
+    let mounted = mount(util::leak(route.clone()), util::leak(dir_spelling.clone()), &omit, dotted);
+
+    // ---- changes on disk after start-up
+    let mut late_contents: Vec<Value> = vec![];
+    for l in util::arr(&scn["late"]) {
+        let rel = segs(&l["path"]).join("/");
+        let full = root.join(&rel);
+        match util::s(&l["op"]) {
+            "remove" => { let _ = std::fs::remove_file(&full); }
+            "add" | "rewrite" => {
+                if let Some(d) = full.parent() { let _ = std::fs::create_dir_all(d); }
+                let c = format!("LATE {rel} written after the mount\n").into_bytes();
+                let _ = std::fs::write(&full, &c);
+                late_contents.push(json!({"rel": rel, "fnv": fnv(&c)}));
+            }
+            _ => {}
+        }
+    }
+
+    let router = match mounted {
+        Ok(m) => m.router,
+        Err(msg) => return json!({"kind": "dir", "mounted": false, "refusal": refusal_class(&msg), "msg": util::clip(&msg, 160),
+                                   "route": route, "resps": []}),
+    };
+
+    // ---- requests
+    let mut resps = vec![];
+    for rq in util::arr(&scn["reqs"]) {
+        let m = util::s(&rq["m"]).to_string();
+        let target = text(&rq["path"]);
+        let router2 = router.clone();
+        let (m2, t2) = (m.clone(), target.clone());
+        let r = std::panic::catch_unwind(std::panic::AssertUnwindSafe(move || one_request(&router2, &m2, &t2)));
+        let o = match r {
+            Err(e) => json!({"k": "panic", "status": 0, "mt": "", "eq": [], "eqall": [], "eqlate": false, "eqout": false, "blen": 0, "tail": 0,
+                             "framing": "", "cl": "", "nct": 0, "err": util::clip(&panic_msg(e), 120), "target": target}),
+            Ok((buf, how)) => {
+                if buf.is_empty() {
+                    json!({"k": how, "status": 0, "mt": "", "eq": [], "eqall": [], "eqlate": false, "eqout": false, "blen": 0, "tail": 0,
+                           "framing": "", "cl": "", "nct": 0, "err": "nothing written", "target": target})
+                } else {
+                    let p = util::parse_response(&buf, m == "HEAD");
+                    let cts: Vec<&String> = p.headers.iter().filter(|(k, _)| k.eq_ignore_ascii_case("content-type")).map(|(_, v)| v).collect();
+                    let mt = cts.first().map(|v| v.split(';').next().unwrap_or("").trim().to_ascii_lowercase()).unwrap_or_default();
+                    let cl = p.headers.iter().find(|(k, _)| k.eq_ignore_ascii_case("content-length")).map(|(_, v)| v.clone()).unwrap_or_default();
+                    let eq: Vec<usize> = contents.iter().enumerate().filter(|(_, c)| **c == p.body).map(|(i, _)| i + 1).collect();
+                    let tail = buf.len().saturating_sub(p.consumed);
+                    // everything that follows the head on the wire, whatever the declared framing says
+                    let after: &[u8] = util::find(&buf, b"\r\n\r\n").map(|i| &buf[i + 4..]).unwrap_or(&[]);
+                    let eqall: Vec<usize> = contents.iter().enumerate().filter(|(_, c)| c.as_slice() == after).map(|(i, _)| i + 1).collect();
+                    json!({"k": if p.error.is_empty() { "resp" } else { "unparsable" }, "status": p.status, "mt": mt, "eq": eq,
+                           "eqall": eqall, "eqlate": p.body.starts_with(b"LATE ") || after.starts_with(b"LATE "), "eqout": p.body == outside || after == outside.as_slice(),
+                           "blen": p.body.len() as u32, "tail": tail as u32, "framing": p.framing, "cl": cl, "nct": cts.len(),
+                           "fnv": fnv(&p.body), "err": util::clip(&p.error, 120), "how": how, "target": target})
+                }
+            }
+        };
+        resps.push(o);
+    }
+    json!({"kind": "dir", "mounted": true, "refusal": "", "msg": "", "route": route, "dir": if salt % 2 == 0 { "absolute" } else { "relative" },
+           "dotted": dotted, "resps": resps,
+           "fnv": contents.iter().map(|c| json!(fnv(c))).collect::<Vec<_>>(), "rels": rels})
+}
+
+fn pathdiff(p: &Path, base: &Path) -> Option<PathBuf> {
+    let p = p.canonicalize().ok()?; let base = base.canonicalize().ok()?;
+    let (pc, bc): (Vec<_>, Vec<_>) = (p.components().collect(), base.components().collect());
+    let mut i = 0; while i < pc.len() && i < bc.len() && pc[i] == bc[i] { i += 1 }
+    let mut out = PathBuf::new();
+    for _ in i..bc.len() { out.push("..") }
+    for c in &pc[i..] { out.push(c.as_os_str()) }
+    if out.as_os_str().is_empty() { None } else { Some(out) }
+}
+
+// ------------------------------------------------------------------------------------------------ random generator
+const EXTS: [&str; 16] = ["txt", "html", "css", "js", "xml", "csv", "tsv", "vcard", "jpeg", "gif", "png", "svg", "woff", "woff2", "json", "pdf"];
+const STEMS: [&str; 16] = ["a", "b", "ab", "index", "a.min", "x-1", "y_2", "Z", "0", "about", "a.b.c", "inde", "indexx", "sub", "d", "v1"];
+const DIRS: [&str; 9] = ["sub", "deep", "a", "ab", "d.js", "v1.html", "x-1", "assets", "index"];
+
+fn is_text_ext(e: &str) -> bool { matches!(e, "txt" | "html" | "css" | "js" | "xml" | "csv" | "tsv" | "vcard") }
+
+fn req(m: &str, kind: &str, path: &str) -> Value { json!({"m": m, "kind": kind, "path": chars(path)}) }
+
+pub fn gen(rng: &mut Rng, i: usize) -> Value {
+    // mount route of depth 0..3
+    let mount: Vec<String> = (0..rng.below(4)).map(|_| rng.pick(&["pub", "static", "s", "v1.2", "a", "assets"]).to_string()).collect();
+    // directories: a random small tree of depth <= 3
+    let mut dirs: Vec<Vec<String>> = vec![vec![]];
+    for _ in 0..rng.below(4) {
+        let parent = dirs[rng.below(dirs.len())].clone();
+        if parent.len() >= 3 { continue }
+        let mut d = parent; d.push(rng.pick(&DIRS).to_string());
+        if !dirs.contains(&d) { dirs.push(d) }
+    }
+    let nfiles = rng.range(1, 9);
+    let mut files: Vec<(Vec<String>, String)> = vec![];
+    for _ in 0..nfiles {
+        let d = dirs[rng.below(dirs.len())].clone();
+        let ext = if rng.chance(1, 3) { *rng.pick(&["html", "js", "txt"]) } else { *rng.pick(&EXTS) };
+        let stem = if rng.chance(1, 4) { "index" } else { *rng.pick(&STEMS) };
+        let name = format!("{stem}.{ext}");
+        let mut p = d; p.push(name);
+        if files.iter().any(|(q, _)| *q == p) { continue }
+        // a file must not have the name of a directory of the tree (the file system would refuse it)
+        if dirs.contains(&p) || dirs.iter().any(|dd| dd.len() > p.len() && dd[..p.len()] == p[..]) { continue }
+        let cls = match rng.below(10) { 0 | 1 => "empty", 2 | 3 => if is_text_ext(ext) { "text" } else { "bin" }, 4 => "big", _ => "text" };
+        files.push((p, cls.to_string()));
+    }
+    // rarely: a file outside the supported domain (the oracle then also allows a refused mount)
+    if rng.chance(1, 12) {
+        let d = dirs[rng.below(dirs.len())].clone();
+        let (name, cls) = *rng.pick(&[("README", "text"), ("a.md", "text"), ("bad.txt", "badtext"), ("A.HTML", "text"), ("a b.txt", "text"), ("x.tar.gz", "bin")]);
+        let mut p = d; p.push(name.to_string());
+        if !files.iter().any(|(q, _)| *q == p) { files.push((p, cls.to_string())) }
+    }
+    let omit: Vec<String> = match rng.below(8) {
+        0 | 1 => vec![], 2 | 3 => vec!["html".into()], 4 => vec!["html".into(), "js".into()], 5 => vec!["js".into(), "html".into(), "json".into()],
+        6 => vec![rng.pick(&EXTS).to_string()], _ => vec!["txt".into(), rng.pick(&EXTS).to_string()],
+    };
+    let base: String = mount.iter().map(|s| format!("/{s}")).collect();
+    let join = |b: &str, rest: &str| -> String { if rest.is_empty() { if b.is_empty() { "/".into() } else { b.to_string() } } else { format!("{b}/{rest}") } };
+    let mut reqs: Vec<Value> = vec![];
+    let strip = |name: &str| -> String {
+        for e in &omit { if let Some(s) = name.strip_suffix(&format!(".{e}")) { return s.to_string() } }
+        name.to_string()
+    };
+    for (p, _) in &files {
+        let dir = p[..p.len() - 1].join("/");
+        let name = &p[p.len() - 1];
+        let full = join(&base, &p.join("/"));
+        let short = join(&base, &if dir.is_empty() { strip(name) } else { format!("{dir}/{}", strip(name)) });
+        reqs.push(req("GET", "file-full", &full));
+        if short != full { reqs.push(req("GET", "file-short", &short)) }
+        match rng.below(14) {
+            0 => reqs.push(req("HEAD", "file-short", &short)),
+            1 => reqs.push(req("POST", "file-short", &short)),
+            2 => reqs.push(req("GET", "more", &format!("{short}x"))),
+            3 => reqs.push(req("GET", "less", &short[..short.len().saturating_sub(1).max(1)])),
+            4 => reqs.push(req("GET", "slash", &format!("{short}/"))),
+            5 => reqs.push(req("GET", "query", &format!("{short}?v={}", rng.below(100)))),
+            6 => reqs.push(req("GET", "dotdot", &format!("{}/{}", join(&base, &if dir.is_empty() { "zz/..".to_string() } else { format!("{dir}/../{}", p[p.len() - 2]) }), strip(name)))),
+            7 => reqs.push(req("GET", "enc-dotdot", &format!("{}/%2e%2e/{}", join(&base, "zz"), p.join("/")))),
+            8 => { let b = join(&base, &dir); if b != "/" { reqs.push(req("GET", "enc-slash", &format!("{b}%2f{}", strip(name)))) } else { reqs.push(req("GET", "enc-slash", &format!("/%2f{}", strip(name)))) } }
+            9 => reqs.push(req("GET", "dslash", &format!("{}//{}", join(&base, &dir).trim_end_matches('/'), strip(name)))),
+            10 => { let mut c = short.clone().into_bytes(); let k = c.len() - 1; c[k] = if c[k] == b'q' { b'r' } else { b'q' }; reqs.push(req("GET", "subst", &String::from_utf8(c).unwrap())) }
+            11 => reqs.push(req("GET", "upper", &short.to_ascii_uppercase())),
+            12 => reqs.push(req("HEAD", "more", &format!("{full}x"))),
+            _ => reqs.push(req("GET", "index-own", &join(&base, &if dir.is_empty() { "index".to_string() } else { format!("{dir}/index") }))),
+        }
+    }
+    for d in &dirs {
+        let dp = join(&base, &d.join("/"));
+        reqs.push(req("GET", "dir", &dp));
+        if rng.chance(1, 2) { reqs.push(req("GET", "dir-slash", &format!("{}/", dp.trim_end_matches('/')))) }
+        if rng.chance(1, 3) { reqs.push(req("HEAD", "dir", &dp)) }
+    }
+    reqs.push(req("GET", "outside", &format!("{}/../outside.txt", if base.is_empty() { "" } else { &base })));
+    reqs.push(req("GET", "outside", &join(&base, "outside.txt")));
+    reqs.push(req("GET", "outside", &join(&base, "%2e%2e/outside.txt")));
+    reqs.push(req("GET", "outside", "/../rootx/secret.txt"));
+    reqs.push(req("GET", "root", "/"));
+    // changes after the mount
+    let mut late = vec![];
+    if rng.chance(1, 4) && !files.is_empty() {
+        let (p, _) = &files[rng.below(files.len())];
+        late.push(json!({"path": p.iter().map(|s| chars(s)).collect::<Vec<_>>(), "op": *rng.pick(&["remove", "rewrite"])}));
+        let newp = vec!["late.txt".to_string()];
+        if !files.iter().any(|(q, _)| *q == newp) {
+            late.push(json!({"path": newp.iter().map(|s| chars(s)).collect::<Vec<_>>(), "op": "add"}));
+            reqs.push(req("GET", "late-added", &join(&base, "late.txt")));
+        }
+    }
+    json!({
+        "id": i, "salt": rng.below(1 << 20),
+        "mount": mount.iter().map(|s| chars(s)).collect::<Vec<_>>(),
+        "omit": omit.iter().map(|s| chars(s)).collect::<Vec<_>>(),
+        "files": files.iter().map(|(p, c)| json!({"path": p.iter().map(|s| chars(s)).collect::<Vec<_>>(), "cls": c})).collect::<Vec<_>>(),
+        "emptydirs": dirs.iter().filter(|d| !d.is_empty()).map(|d| d.iter().map(|s| chars(s)).collect::<Vec<_>>()).collect::<Vec<_>>(),
+        "late": late,
+        "reqs": reqs,
+    })
+}
